@@ -381,12 +381,14 @@ def rule_byheight(ctx):
     g = nested_where(lh, lambda x: any(isinstance(c, ast.Call) and q.callee_name(ctx, x, c) == 'self.history.get_txnums' for c in x.own_nodes()),
                      'reads the tx numbers of the history')
     rets = [r for r in g.own_nodes() if isinstance(r, ast.Return)]
-    tn = [s for s in g.own_nodes() if isinstance(s, ast.Assign) and any(isinstance(c, ast.Call) and q.callee_name(ctx, g, c) == 'self.history.get_txnums' for c in ast.walk(s.value))]
-    okh = len(rets) == 1 and isinstance(rets[0].value, ast.ListComp) and not rets[0].value.generators[0].ifs and len(tn) == 1 and \
-        isinstance(tn[0].value, ast.Call) and norm(tn[0].value.func) == 'list' and norm(rets[0].value.generators[0].iter) == norm(tn[0].targets[0])
+    from .c03 import expand_locals
+    okh = len(rets) == 1 and isinstance(rets[0].value, ast.ListComp) and not rets[0].value.generators[0].ifs
     if okh:
-        gt = [c for c in ast.walk(tn[0].value) if isinstance(c, ast.Call) and q.callee_name(ctx, g, c) == 'self.history.get_txnums'][0]
-        okh = [norm(a) for a in gt.args] == [lh.params[1], lh.kwonly[0] if lh.kwonly else 'limit']
+        src = expand_locals(g, rets[0].value.generators[0].iter)
+        okh = isinstance(src, ast.Call) and norm(src.func) == 'list' and len(src.args) == 1 and isinstance(src.args[0], ast.Call) \
+            and q.callee_name(ctx, g, src.args[0]) == 'self.history.get_txnums'
+        if okh:
+            okh = [norm(a) for a in src.args[0].args] == [lh.params[1], lh.kwonly[0] if lh.kwonly else 'limit']
     ctx.check(okh, 'C02.BYHEIGHT', ctx.key(g, None, 'order preserved'),
               'every tx number of the history is mapped to (hash, height), in order, none dropped',
               'tx numbers are filtered / reordered when mapped to hashes', loc=ctx.loc(g, g.node))
